@@ -339,6 +339,7 @@ func TestC08(t *testing.T) {
 	rep.Constants = map[string]string{"tm_states": fmt.Sprint(len(x.tm.states)), "eth_states": fmt.Sprint(len(x.eth.states))}
 
 	c08Directed(x)
+	c08LiveDelayStory(t, rep)
 	n := 900
 	if envTier() == "thorough" {
 		n = 30000
